@@ -8,9 +8,9 @@ import (
 // engine is one correspondence driver: it runs the real implementation on
 // generated inputs, writes the operation lines and the implementation's
 // canonical observations, and evaluates the property's own oracle.
-type engine func(ctx *runCtx) error
+type engineFn func(ctx *runCtx) error
 
-var engines = map[string]engine{}
+var engines = map[string]engineFn{}
 
 func main() {
 	if len(os.Args) < 2 {
